@@ -28,7 +28,7 @@ sys.path.insert(0, os.path.dirname(__file__))
 from common import Run, theorems_of
 import heapcorr as H
 import segcorr
-from hl7apy.core import Segment, Field, Component, SubComponent
+from hl7apy.core import Segment, Field, Component, SubComponent, Group
 
 PLAIN = re.compile(r'^[A-Za-z0-9]+$')
 READ_KINDS = ('read', 'readvalue', 'len', 'lenlist', 'toer7')
@@ -196,6 +196,22 @@ def main(argv=None):
                     ops += [['addhelperchain', 0, names, child], ['setvalue', 1, text], ['toer7', 0]]
                     stats['helper_histories'] += 1
                     oracle_on_history(run, v, ops, lvl, stats, shapes)
+    # chains that pass a Z-SEGMENT which does not exist yet, below a message or a group, ending in a write (Message /
+    # Group parents are outside the Coq model: oracle only)
+    stats['z_segment_histories'] = 0
+    for v in versions:
+        for lvl in (H.TOLERANT, H.STRICT):
+            for struct, front in (('ADT_A01', []), ('ORU_R01', []), ('ORU_R01', ['oru_r01_patient_result']),
+                                  ('OML_O33', ['oml_o33_patient'])):
+                for z in ('zin', 'zbe'):
+                    for form in ('setattr', 'setvaluechain'):
+                        for nreads in (0, 1):
+                            names = front + [z, '%s_%d' % (z, rng.choice([1, 2, 3]))]
+                            ops = [['newmsg', lvl, struct, None]] + [['readvalue', 0, names]] * nreads
+                            ops.append(['setattr', 0, names, ['t', 'x']] if form == 'setattr' else ['setvaluechain', 0, names, 'ab'])
+                            ops.append(['toer7', 0])
+                            stats['z_segment_histories'] += 1
+                            oracle_on_history(run, v, ops, lvl, stats, shapes)
     run.log('implementation side: %d steps, %d read probes (%d repeated), %d chain writes checked, %d failures'
             % (stats['steps'], stats['read_probes'], stats['repeated_probes'], stats['chain_writes_checked'],
                len(run.failures)))
@@ -448,12 +464,13 @@ def make_hook(run, g, v, lvl, stats, shapes):
                     back = H.value_text(back, impl.ec)
                 except Exception as ex:  # noqa
                     back = '!%s' % type(ex).__name__
-                dtp = None if isinstance(path[-1], Segment) else path[-1].datatype
+                typed = (Field, Component, SubComponent)
+                dtp = path[-1].datatype if isinstance(path[-1], typed) else None
                 pdt = None
-                if len(path) >= 2 and not isinstance(path[-2], Segment):
+                if len(path) >= 2 and isinstance(path[-2], typed):
                     pdt = path[-2].datatype
                 # a value below a bare varies element is not encoded at all (F19, C09's finding): not a position matter
-                varies = any((not isinstance(q, Segment)) and q.datatype == 'varies' for q in path)
+                varies = any(isinstance(q, typed) and q.datatype == 'varies' for q in path)
                 if back != text and not varies:
                     run.fail('write-not-readable', 'the value written through a chain reads back as %r, not %r' % (back, text),
                              depth=len(names), target_datatype=dtp, parent_datatype=pdt, version=v, level=lvl,
@@ -467,6 +484,12 @@ def make_hook(run, g, v, lvl, stats, shapes):
                         try:
                             ce, pe = p.to_er7(impl.ec), prev.to_er7(impl.ec)
                         except Exception:  # noqa
+                            break
+                        if isinstance(prev, Group) and prev.validation_level == H.STRICT and \
+                                p.name not in (prev.ordered_children or []):
+                            # a STRICT group / message encodes in the order of its structure: a child the structure
+                            # does not list (a Z-segment) is kept but not encoded (F18, C07 / C09 matter)
+                            stats['strict_group_unlisted_child'] = stats.get('strict_group_unlisted_child', 0) + 1
                             break
                         if ce and ce not in pe:
                             run.fail('write-not-encoded', 'after a successful write through a chain %r encodes as %r, which '
